@@ -8,5 +8,8 @@ sys.path.insert(0, str(V))
 for f in sorted((V / "gen").glob("*.py")):
     if f.stem in ("__init__", "common"):
         continue
-    importlib.import_module("gen." + f.stem).generate()
-    print("gen", f.stem, "ok")
+    try:
+        importlib.import_module("gen." + f.stem).generate()
+        print("gen", f.stem, "ok")
+    except Exception as e:
+        print("gen", f.stem, "FAILED", repr(e)[:300])
